@@ -403,19 +403,20 @@ def ttyLoop (quitLine : Str) (quitResult : List Str) : List Str → List Str →
 /-- `tty(prompt)` on the generated constants → (request, keys left) -/
 def tty (keys : List Str) : Option (List Str × List Str) := ttyLoop ttyQuitLine ttyQuitResult keys []
 
-/-- a whole session for a keyboard transcript (`oc` = outcome of serving a request and of printing its error):
-    final status and number of `tty` calls started; the fuel is never exhausted for `keys.length + 1` (every call eats a key) -/
-def runKeysFuel (test : ReqTest) (oc : List Str → Except Exc Unit × Except Exc Unit) : Nat → List Str → Status × Nat
-  | 0, _ => (.running, 0)
-  | f + 1, keys =>
+/-- a whole session for a keyboard transcript; `oc served req` = outcome of serving the request `req` and of printing its error after the
+    requests `served` (most recent first) — serving depends on the history: modules of earlier requests stay registered.
+    Final status and number of `tty` calls started; the fuel is never exhausted for `keys.length + 1` (every call eats a key) -/
+def runKeysFuel (test : ReqTest) (oc : List (List Str) → List Str → Except Exc Unit × Except Exc Unit) : Nat → List (List Str) → List Str → Status × Nat
+  | 0, _, _ => (.running, 0)
+  | f + 1, served, keys =>
     match tty keys with
     | none => (.running, 1)
     | some (req, rest) =>
-      match stepRequest test req (oc req).1 (oc req).2 with
-      | .running => let r := runKeysFuel test oc f rest; (r.1, r.2 + 1)
+      match stepRequest test req (oc served req).1 (oc served req).2 with
+      | .running => let r := runKeysFuel test oc f (req :: served) rest; (r.1, r.2 + 1)
       | s => (s, 1)
 
-def runKeys (test : ReqTest) (oc : List Str → Except Exc Unit × Except Exc Unit) (keys : List Str) : Status × Nat :=
-  runKeysFuel test oc (keys.length + 1) keys
+def runKeys (test : ReqTest) (oc : List (List Str) → List Str → Except Exc Unit × Except Exc Unit) (keys : List Str) : Status × Nat :=
+  runKeysFuel test oc (keys.length + 1) [] keys
 
 end Tranp.Errors
